@@ -10,13 +10,24 @@ Definition from (i : nat) (x : qelem) : bool :=
 Definition is_prod (x : qelem) : bool := match q_src x with Some _ => true | None => false end.
 
 (* the queue elements producer i creates for the calls of p (numbered from k) at enabled levels *)
-Fixpoint elems (m : Z) (i k : nat) (p : prog) : list qelem :=
+Fixpoint elems (m : Z) (vf : valfn) (i k : nat) (p : prog) : list qelem :=
   match p with
   | [] => []
   | (lev, t) :: r =>
-      if enabled m lev then {| q_src := Some (i, k); q_text := t |} :: elems m i (S k) r
-      else elems m i (S k) r
+      if enabled m lev then {| q_src := Some (i, k); q_text := t; q_val := vf i k |} :: elems m vf i (S k) r
+      else elems m vf i (S k) r
   end.
+
+(* which counter numbers a written element, and the numbers a sequence of written elements gets *)
+Definition uses_seq (d : bool) (x : qelem) : bool := if d then negb (Z.eqb (q_val x) 0) else true.
+Fixpoint nums (d : bool) (s o : nat) (W : list qelem) : list nat :=
+  match W with
+  | [] => []
+  | x :: W' => if uses_seq d x then S s :: nums d (S s) o W' else S o :: nums d s (S o) W'
+  end.
+Definition cnt (d : bool) (b : bool) (W : list qelem) : nat :=
+  length (filter (fun y => Bool.eqb (uses_seq d y) b) W).
+Definition line_of (d : bool) (x : qelem) : text := rest d (q_val x) (q_text x).
 
 Definition inflight (k : cpc) : list qelem := match k with CWrite x => [x] | _ => [] end.
 
@@ -25,9 +36,9 @@ Definition ret_of (m : Z) (l : Z * text) : bool := true.
 
 Definition prefix {A} (a b : list A) : Prop := exists t, b = a ++ t.
 
-Definition PInv (m : Z) (pu : list qelem) (i : nat) (p : prog) (st : pstate) : Prop :=
+Definition PInv (m : Z) (vf : valfn) (pu : list qelem) (i : nat) (p : prog) (st : pstate) : Prop :=
   exists done, p = done ++ todo st /\ length done = pidx st /\
-               rets st = map (ret_of m) done /\ filter (from i) pu = elems m i 0 done.
+               rets st = map (ret_of m) done /\ filter (from i) pu = elems m vf i 0 done.
 
 Definition orel {A B} (R : A -> B -> Prop) (a : option A) (b : option B) : Prop :=
   match a, b with
@@ -36,14 +47,15 @@ Definition orel {A B} (R : A -> B -> Prop) (a : option A) (b : option B) : Prop 
   | _, _ => False
   end.
 
-Record Inv (m : Z) (ps0 : list prog) (c : config) : Prop := {
+Record Inv (m : Z) (d : bool) (vf : valfn) (ps0 : list prog) (c : config) : Prop := {
   i_mask : mask c = m;
-  i_prods : forall i, orel (PInv m (pushed c) i) (nth_error ps0 i) (nth_error (prods c) i);
+  i_cfg : dirflag c = d /\ valf c = vf;
+  i_prods : forall i, orel (PInv m vf (pushed c) i) (nth_error ps0 i) (nth_error (prods c) i);
   i_src : forall x, In x (pushed c) ->
           match q_src x with Some (j, _) => j < length ps0 | None => q_text x = [] end;
   i_fifo : pushed c = wrote c ++ inflight (cons c) ++ dropped c ++ queue c;
-  i_file : map snd (file c) = map q_text (wrote c) /\ map fst (file c) = seq 1 (length (wrote c))
-           /\ seqno c = length (wrote c);
+  i_file : map snd (file c) = map (line_of d) (wrote c) /\ map fst (file c) = nums d 0 0 (wrote c)
+           /\ seqno c = cnt d true (wrote c) /\ oseqno c = cnt d false (wrote c);
   i_text : (forall x, In x (wrote c ++ inflight (cons c)) -> q_text x <> []) /\
            (forall x, In x (dropped c) -> q_text x = []);
   i_exit : dropped c <> [] -> cons c = CExit;
@@ -62,7 +74,7 @@ Proof.
   induction l as [|a l IH]; intros [|i] [|j] x H; cbn; auto; try congruence.
 Qed.
 
-Lemma elems_app : forall m i a k b, elems m i k (a ++ b) = elems m i k a ++ elems m i (k + length a) b.
+Lemma elems_app : forall m vf i a k b, elems m vf i k (a ++ b) = elems m vf i k a ++ elems m vf i (k + length a) b.
 Proof.
   induction a as [|[lev t] a IH]; intros k b; cbn [elems app length].
   - rewrite Nat.add_0_r. reflexivity.
@@ -70,7 +82,7 @@ Proof.
     destruct (enabled m lev); reflexivity.
 Qed.
 
-Lemma elems_in : forall m i p k x, In x (elems m i k p) ->
+Lemma elems_in : forall m vf i p k x, In x (elems m vf i k p) ->
   exists j lev, q_src x = Some (i, k + j) /\ nth_error p j = Some (lev, q_text x) /\ enabled m lev = true.
 Proof.
   induction p as [|[lev t] p IH]; intros k x H; cbn [elems] in H; [inversion H|].
@@ -83,23 +95,23 @@ Proof.
     replace (k + S j) with (S k + j) by lia. auto.
 Qed.
 
-Lemma elems_from : forall m i p k x, In x (elems m i k p) -> from i x = true.
+Lemma elems_from : forall m vf i p k x, In x (elems m vf i k p) -> from i x = true.
 Proof.
-  intros m i p k x H. destruct (elems_in _ _ _ _ _ H) as [j [l [A _]]]. unfold from. rewrite A.
+  intros m vf i p k x H. destruct (elems_in _ _ _ _ _ _ H) as [j [l [A _]]]. unfold from. rewrite A.
   apply Nat.eqb_refl.
 Qed.
 
 Lemma filter_snoc : forall A (f : A -> bool) l x, filter f (l ++ [x]) = filter f l ++ (if f x then [x] else []).
 Proof. intros. rewrite filter_app. reflexivity. Qed.
 
-Lemma PInv_irrel : forall m pu pu' i p st, filter (from i) pu' = filter (from i) pu ->
-  PInv m pu i p st -> PInv m pu' i p st.
-Proof. intros m pu pu' i p st E [d [A [B [C D]]]]. exists d. rewrite E. auto. Qed.
+Lemma PInv_irrel : forall m vf pu pu' i p st, filter (from i) pu' = filter (from i) pu ->
+  PInv m vf pu i p st -> PInv m vf pu' i p st.
+Proof. intros m vf pu pu' i p st E [dn [A [B [C D]]]]. exists dn. rewrite E. auto. Qed.
 
 (* ------------------------------------------------------------------ initial state *)
-Lemma Inv_init : forall m ps, Inv m ps (init m ps).
+Lemma Inv_init : forall m d vf ps, Inv m d vf ps (init m d vf ps).
 Proof.
-  intros m ps. constructor; cbn; auto.
+  intros m d vf ps. constructor; cbn; auto.
   - intros i. rewrite nth_error_map. destruct (nth_error ps i) as [p|]; cbn; [|exact I].
     exists []. cbn. auto.
   - intros x [].
@@ -110,23 +122,24 @@ Proof.
 Qed.
 
 (* ------------------------------------------------------------------ preservation *)
-Lemma Inv_step_prod : forall m ps0 c i, Inv m ps0 c -> Inv m ps0 (step_prod c i).
+Lemma Inv_step_prod : forall m d vf ps0 c i, Inv m d vf ps0 c -> Inv m d vf ps0 (step_prod c i).
 Proof.
-  intros m ps0 c i HI. unfold step_prod.
+  intros m d vf ps0 c i HI. unfold step_prod.
   destruct (nth_error (prods c) i) as [st|] eqn:Est; [|exact HI].
   destruct (todo st) as [|[lev txt] rest] eqn:Etodo; [exact HI|].
-  pose proof (i_prods _ _ _ HI i) as Hpi. rewrite Est in Hpi.
+  pose proof (i_prods _ _ _ _ _ HI i) as Hpi. rewrite Est in Hpi.
   destruct (nth_error ps0 i) as [p|] eqn:Ep; [|contradiction]. cbn in Hpi.
   destruct Hpi as [done [Hp [Hlen [Hrets Hfil]]]].
   assert (Hilt : i < length ps0) by (apply nth_error_Some; congruence).
-  rewrite (i_mask _ _ _ HI).
+  rewrite (i_mask _ _ _ _ _ HI).
   destruct (enabled m lev) eqn:Een.
   - (* pushed *)
-    cbn [enqueue try_push].
-    set (x := {| q_src := Some (i, pidx st); q_text := txt |}).
-    destruct HI as [Hm Hpr Hsrc Hfifo Hfile Htext Hex Hdn Hnd].
-    constructor; cbn [mask prods queue stopping cons seqno file stopper pushed wrote dropped].
+    cbn [enqueue try_push]. rewrite (proj2 (i_cfg _ _ _ _ _ HI)).
+    set (x := {| q_src := Some (i, pidx st); q_text := txt; q_val := vf i (pidx st) |}).
+    destruct HI as [Hm Hcfg Hpr Hsrc Hfifo Hfile Htext Hex Hdn Hnd].
+    constructor; cbn [mask dirflag valf prods queue stopping cons seqno oseqno file stopper pushed wrote dropped].
     + reflexivity.
+    + destruct Hcfg; split; [assumption|reflexivity].
     + intros j. destruct (Nat.eq_dec i j) as [<-|Hij].
       * rewrite (upd_same _ _ _ _ _ Est), Ep. cbn.
         exists (done ++ [(lev, txt)]). cbn [todo pidx rets].
@@ -153,7 +166,7 @@ Proof.
         destruct Hy2 as [Hy2 _].
         assert (Fy : In y (filter (from i) (pushed c))).
         { apply filter_In. split; [assumption|]. unfold from. rewrite Hy1. apply Nat.eqb_refl. }
-        rewrite Hfil in Fy. destruct (elems_in _ _ _ _ _ Fy) as [j [l [A [B _]]]].
+        rewrite Hfil in Fy. destruct (elems_in _ _ _ _ _ _ Fy) as [j [l [A [B _]]]].
         rewrite Hy1 in A. injection A as A. cbn in A.
         assert (j < length done) by (apply nth_error_Some; congruence). lia. }
       clear - Hnd Hfresh. induction (map q_src (filter is_prod (pushed c))) as [|a l IH]; cbn.
@@ -163,8 +176,8 @@ Proof.
            apply Hfresh. left. symmetry. exact H.
         -- apply IH; [assumption|]. intro H. apply Hfresh. right. exact H.
   - (* level disabled: nothing pushed, result true *)
-    destruct HI as [Hm Hpr Hsrc Hfifo Hfile Htext Hex Hdn Hnd].
-    constructor; cbn [mask prods queue stopping cons seqno file stopper pushed wrote dropped]; auto.
+    destruct HI as [Hm Hcfg Hpr Hsrc Hfifo Hfile Htext Hex Hdn Hnd].
+    constructor; cbn [mask dirflag valf prods queue stopping cons seqno oseqno file stopper pushed wrote dropped]; auto.
     intros j. destruct (Nat.eq_dec i j) as [<-|Hij].
     + rewrite (upd_same _ _ _ _ _ Est), Ep. cbn.
       exists (done ++ [(lev, txt)]). cbn [todo pidx rets].
@@ -175,15 +188,31 @@ Proof.
     + rewrite (upd_other _ _ _ _ _ Hij). exact (Hpr j).
 Qed.
 
+Lemma cnt_snoc : forall d b W x, cnt d b (W ++ [x]) = cnt d b W + (if Bool.eqb (uses_seq d x) b then 1 else 0).
+Proof.
+  intros. unfold cnt. rewrite filter_app, app_length. cbn [filter].
+  destruct (Bool.eqb (uses_seq d x) b); reflexivity.
+Qed.
+
+Lemma nums_snoc : forall d W s o x,
+  nums d s o (W ++ [x]) =
+  nums d s o W ++ [S (if uses_seq d x then s + cnt d true W else o + cnt d false W)].
+Proof.
+  induction W as [|y W IH]; intros s o x; cbn [app nums].
+  - unfold cnt. cbn. rewrite !Nat.add_0_r. destruct (uses_seq d x); reflexivity.
+  - destruct (uses_seq d y) eqn:Ey; rewrite IH; cbn [app]; do 3 f_equal; unfold cnt; cbn [filter]; rewrite Ey; cbn [Bool.eqb length];
+      destruct (uses_seq d x); lia.
+Qed.
+
 Ltac exit_goal Hd := let H := fresh in intros H; try reflexivity; try (rewrite Hd in H; contradiction H; reflexivity).
 Ltac done_goal Hdn := let H := fresh in intros H; try reflexivity; try (apply Hdn in H; discriminate).
-Ltac fields := cbn [set_cons mask prods queue stopping cons seqno file stopper pushed wrote dropped inflight].
+Ltac fields := cbn [set_cons mask dirflag valf prods queue stopping cons seqno oseqno file stopper pushed wrote dropped inflight].
 
-Lemma Inv_step_cons : forall m ps0 c, Inv m ps0 c -> Inv m ps0 (step_cons c).
+Lemma Inv_step_cons : forall m d vf ps0 c, Inv m d vf ps0 c -> Inv m d vf ps0 (step_cons c).
 Proof.
-  intros m ps0 c HI. unfold step_cons.
+  intros m d vf ps0 c HI. unfold step_cons.
   destruct (cons c) as [|s|x|] eqn:Ec; [| | |exact HI];
-    destruct HI as [Hm Hpr Hsrc Hfifo Hfile Htext Hex Hdn Hnd]; rewrite Ec in *; cbn [inflight] in *;
+    destruct HI as [Hm Hcfg Hpr Hsrc Hfifo Hfile Htext Hex Hdn Hnd]; rewrite Ec in *; cbn [inflight] in *;
     (assert (Hd : dropped c = []) by
       (destruct (dropped c); [reflexivity|];
        match type of Hex with _ -> ?k = CExit => assert (k = CExit) by (apply Hex; discriminate); discriminate end)).
@@ -212,23 +241,25 @@ Proof.
         -- exit_goal Hd.
         -- done_goal Hdn.
   - (* CWrite x *)
-    destruct Hfile as [Hf1 [Hf2 Hf3]]. destruct Htext as [Ht1 Ht2].
+    destruct Hfile as [Hf1 [Hf2 [Hf3 Hf4]]]. destruct Htext as [Ht1 Ht2]. destruct Hcfg as [Hcd Hcv].
+    rewrite Hcd. change (if d then negb (Z.eqb (q_val x) 0) else true) with (uses_seq d x).
     constructor; fields; try assumption.
+    + split; [reflexivity|assumption].
     + rewrite Hfifo. rewrite <- !app_assoc. reflexivity.
-    + rewrite !map_app, Hf1, Hf2, Hf3, app_length. cbn. split; [reflexivity|]. split; [|lia].
-      rewrite Nat.add_1_r. rewrite seq_S. reflexivity.
+    + rewrite !map_app, Hf1, Hf2, nums_snoc, !cnt_snoc, Hf3, Hf4. cbn [map snd fst Nat.add].
+      destruct (uses_seq d x); cbn [Bool.eqb]; repeat split; try reflexivity; lia.
     + split; [|exact Ht2]. intros y Hy. rewrite app_nil_r in Hy. apply Ht1. exact Hy.
     + exit_goal Hd.
     + done_goal Hdn.
 Qed.
 
-Lemma Inv_step_stop : forall m ps0 c, Inv m ps0 c -> Inv m ps0 (step_stop c).
+Lemma Inv_step_stop : forall m d vf ps0 c, Inv m d vf ps0 c -> Inv m d vf ps0 (step_stop c).
 Proof.
-  intros m ps0 c HI. unfold step_stop.
+  intros m d vf ps0 c HI. unfold step_stop.
   destruct (stopper c) eqn:Es.
-  - destruct HI as [Hm Hpr Hsrc Hfifo Hfile Htext Hex Hdn Hnd].
+  - destruct HI as [Hm Hcfg Hpr Hsrc Hfifo Hfile Htext Hex Hdn Hnd].
     constructor; fields; try assumption. discriminate.
-  - destruct HI as [Hm Hpr Hsrc Hfifo Hfile Htext Hex Hdn Hnd]. cbn [enqueue try_push].
+  - destruct HI as [Hm Hcfg Hpr Hsrc Hfifo Hfile Htext Hex Hdn Hnd]. cbn [enqueue try_push].
     constructor; fields; try assumption.
     + intros j. specialize (Hpr j). destruct (nth_error ps0 j), (nth_error (prods c) j); cbn in *; auto.
       eapply PInv_irrel; [|exact Hpr]. rewrite filter_snoc. cbn. rewrite app_nil_r. reflexivity.
@@ -237,72 +268,111 @@ Proof.
     + discriminate.
     + rewrite filter_snoc. cbn. rewrite app_nil_r. exact Hnd.
   - destruct (cons c) eqn:Ec; try exact HI.
-    destruct HI as [Hm Hpr Hsrc Hfifo Hfile Htext Hex Hdn Hnd].
+    destruct HI as [Hm Hcfg Hpr Hsrc Hfifo Hfile Htext Hex Hdn Hnd].
     rewrite Ec in *.
     constructor; fields; try assumption; intros; reflexivity.
   - exact HI.
 Qed.
 
-Lemma Inv_step : forall m ps0 c t, Inv m ps0 c -> Inv m ps0 (step c t).
+Lemma Inv_step : forall m d vf ps0 c t, Inv m d vf ps0 c -> Inv m d vf ps0 (step c t).
 Proof.
-  intros m ps0 c [i| |] HI; cbn [step];
+  intros m d vf ps0 c [i| |] HI; cbn [step];
     [apply Inv_step_prod|apply Inv_step_cons|apply Inv_step_stop]; exact HI.
 Qed.
 
-Lemma Inv_run : forall m ps0 sched c, Inv m ps0 c -> Inv m ps0 (run sched c).
+Lemma Inv_run : forall m d vf ps0 sched c, Inv m d vf ps0 c -> Inv m d vf ps0 (run sched c).
 Proof.
   induction sched as [|t sched IH]; intros c HI; cbn; [exact HI|]. apply IH. apply Inv_step. exact HI.
 Qed.
 
-Lemma Inv_reach : forall m ps sched, Inv m ps (run sched (init m ps)).
+Lemma Inv_reach : forall m d vf ps sched, Inv m d vf ps (run sched (init m d vf ps)).
 Proof. intros. apply Inv_run. apply Inv_init. Qed.
 
 (* ------------------------------------------------------------------ consequences *)
-Lemma prod_state : forall m ps c i p, Inv m ps c -> nth_error ps i = Some p ->
-  exists st, nth_error (prods c) i = Some st /\ PInv m (pushed c) i p st.
+Lemma prod_state : forall m d vf ps c i p, Inv m d vf ps c -> nth_error ps i = Some p ->
+  exists st, nth_error (prods c) i = Some st /\ PInv m vf (pushed c) i p st.
 Proof.
-  intros m ps c i p HI Hp. pose proof (i_prods _ _ _ HI i) as H. rewrite Hp in H.
+  intros m d vf ps c i p HI Hp. pose proof (i_prods _ _ _ _ _ HI i) as H. rewrite Hp in H.
   destruct (nth_error (prods c) i) as [st|]; [|contradiction]. exists st. split; [reflexivity|exact H].
 Qed.
 
 (* a written element: nonempty text, stems from a submit call at an enabled level *)
-Lemma wrote_origin : forall m ps c x, Inv m ps c -> In x (wrote c) ->
+Lemma wrote_origin : forall m d vf ps c x, Inv m d vf ps c -> In x (wrote c) ->
   exists i k p lev, q_src x = Some (i, k) /\ nth_error ps i = Some p /\
                     nth_error p k = Some (lev, q_text x) /\ enabled m lev = true.
 Proof.
-  intros m ps c x HI Hx.
-  assert (Hpu : In x (pushed c)) by (rewrite (i_fifo _ _ _ HI); apply in_or_app; left; exact Hx).
-  assert (Hne : q_text x <> []) by (apply (proj1 (i_text _ _ _ HI)); apply in_or_app; left; exact Hx).
-  pose proof (i_src _ _ _ HI x Hpu) as Hs.
+  intros m d vf ps c x HI Hx.
+  assert (Hpu : In x (pushed c)) by (rewrite (i_fifo _ _ _ _ _ HI); apply in_or_app; left; exact Hx).
+  assert (Hne : q_text x <> []) by (apply (proj1 (i_text _ _ _ _ _ HI)); apply in_or_app; left; exact Hx).
+  pose proof (i_src _ _ _ _ _ HI x Hpu) as Hs.
   destruct (q_src x) as [[i k0]|] eqn:Esrc; [|contradiction].
   destruct (nth_error ps i) as [p|] eqn:Ep; [|apply nth_error_None in Ep; lia].
-  destruct (prod_state _ _ _ _ _ HI Ep) as [st [_ [done [Hp [_ [_ Hfil]]]]]].
+  destruct (prod_state _ _ _ _ _ _ _ HI Ep) as [st [_ [done [Hp [_ [_ Hfil]]]]]].
   assert (Fx : In x (filter (from i) (pushed c))).
   { apply filter_In. split; [exact Hpu|]. unfold from. rewrite Esrc. apply Nat.eqb_refl. }
-  rewrite Hfil in Fx. destruct (elems_in _ _ _ _ _ Fx) as [j [lev [A [B C]]]].
+  rewrite Hfil in Fx. destruct (elems_in _ _ _ _ _ _ Fx) as [j [lev [A [B C]]]].
   rewrite Esrc in A. injection A as ->. cbn.
   exists i, j, p, lev. split; [reflexivity|]. split; [exact Ep|]. split; [|exact C].
   rewrite Hp. rewrite nth_error_app1; [exact B|]. apply nth_error_Some. congruence.
 Qed.
 
-Lemma c28_order_lemma : forall m ps sched i p, nth_error ps i = Some p ->
-  let c := run sched (init m ps) in
-  prefix (filter (from i) (wrote c)) (elems m i 0 p) /\
-  map snd (file c) = map q_text (wrote c) /\
-  map fst (file c) = seq 1 (length (file c)).
+Lemma c28_order_lemma : forall m d vf ps sched i p, nth_error ps i = Some p ->
+  let c := run sched (init m d vf ps) in
+  prefix (filter (from i) (wrote c)) (elems m vf i 0 p) /\
+  map snd (file c) = map (line_of d) (wrote c) /\
+  map fst (file c) = nums d 0 0 (wrote c).
 Proof.
-  intros m ps sched i p Hp c. pose proof (Inv_reach m ps sched) as HI. fold c in HI.
-  destruct (prod_state _ _ _ _ _ HI Hp) as [st [_ [done [Hsplit [_ [_ Hfil]]]]]].
+  intros m d vf ps sched i p Hp c. pose proof (Inv_reach m d vf ps sched) as HI. fold c in HI.
+  destruct (prod_state _ _ _ _ _ _ _ HI Hp) as [st [_ [done [Hsplit [_ [_ Hfil]]]]]].
   split; [|split].
-  - rewrite (i_fifo _ _ _ HI) in Hfil. rewrite filter_app in Hfil.
-    exists (filter (from i) (inflight (cons c) ++ dropped c ++ queue c) ++ elems m i (0 + length done) (todo st)).
+  - rewrite (i_fifo _ _ _ _ _ HI) in Hfil. rewrite filter_app in Hfil.
+    exists (filter (from i) (inflight (cons c) ++ dropped c ++ queue c) ++ elems m vf i (0 + length done) (todo st)).
     rewrite Hsplit, elems_app, <- Hfil, <- app_assoc. reflexivity.
-  - exact (proj1 (i_file _ _ _ HI)).
-  - destruct (i_file _ _ _ HI) as [A [B _]]. rewrite B. f_equal.
-    rewrite <- (map_length snd (file c)), A, map_length. reflexivity.
+  - exact (proj1 (i_file _ _ _ _ _ HI)).
+  - exact (proj1 (proj2 (i_file _ _ _ _ _ HI))).
 Qed.
 
-Lemma c28_levels_lemma : forall m ps sched x, In x (wrote (run sched (init m ps))) ->
+(* the numbers: one series without the direction flag ... *)
+Lemma nums_plain : forall W s o, nums false s o W = seq (S s) (length W).
+Proof. induction W as [|x W IH]; intros s o; cbn; [reflexivity|]. rewrite IH. reflexivity. Qed.
+
+Lemma c28_numbering_plain_lemma : forall m vf ps sched,
+  let c := run sched (init m false vf ps) in
+  map fst (file c) = seq 1 (length (file c)).
+Proof.
+  intros m vf ps sched c. pose proof (Inv_reach m false vf ps sched) as HI. fold c in HI.
+  destruct (i_file _ _ _ _ _ HI) as [A [B _]]. rewrite B, nums_plain. f_equal.
+  rewrite <- (map_length snd (file c)), A, map_length. reflexivity.
+Qed.
+
+(* ... two independent series with it: the numbers of the lines submitted with val <> 0, in file
+   order, are 1, 2, 3, ..., and so are the numbers of the lines submitted with val = 0 *)
+Definition stream (d b : bool) (W : list qelem) (N : list nat) : list nat :=
+  map snd (filter (fun e => Bool.eqb (uses_seq d (fst e)) b) (combine W N)).
+
+Lemma nums_stream : forall d W s o,
+  stream d true W (nums d s o W) = seq (S s) (cnt d true W) /\
+  stream d false W (nums d s o W) = seq (S o) (cnt d false W).
+Proof.
+  unfold stream, cnt. induction W as [|x W IH]; intros s o; cbn [nums combine filter map length fst snd]; [split; reflexivity|].
+  destruct (uses_seq d x) eqn:E; cbn [combine filter fst]; rewrite E; cbn [Bool.eqb map snd length seq].
+  - destruct (IH (S s) o) as [A B]. rewrite A, B. split; reflexivity.
+  - destruct (IH s (S o)) as [A B]. rewrite A, B. split; reflexivity.
+Qed.
+
+Lemma c28_numbering_direction_lemma : forall m vf ps sched,
+  let c := run sched (init m true vf ps) in
+  stream true true (wrote c) (map fst (file c)) = seq 1 (cnt true true (wrote c)) /\
+  stream true false (wrote c) (map fst (file c)) = seq 1 (cnt true false (wrote c)) /\
+  length (file c) = length (wrote c).
+Proof.
+  intros m vf ps sched c. pose proof (Inv_reach m true vf ps sched) as HI. fold c in HI.
+  destruct (i_file _ _ _ _ _ HI) as [A [B _]]. rewrite B.
+  destruct (nums_stream true (wrote c) 0 0) as [C D]. split; [exact C|]. split; [exact D|].
+  rewrite <- (map_length snd (file c)), A, map_length. reflexivity.
+Qed.
+
+Lemma c28_levels_lemma : forall m d vf ps sched x, In x (wrote (run sched (init m d vf ps))) ->
   exists i k p lev, q_src x = Some (i, k) /\ nth_error ps i = Some p /\
                     nth_error p k = Some (lev, q_text x) /\ enabled m lev = true.
 Proof. intros. eapply wrote_origin; [apply Inv_reach|eassumption]. Qed.
@@ -320,22 +390,22 @@ Proof.
   - eapply IH; eassumption.
 Qed.
 
-Lemma c28_once_lemma : forall m ps sched, NoDup (map q_src (wrote (run sched (init m ps)))).
+Lemma c28_once_lemma : forall m d vf ps sched, NoDup (map q_src (wrote (run sched (init m d vf ps)))).
 Proof.
-  intros m ps sched. pose proof (Inv_reach m ps sched) as HI. set (c := run sched (init m ps)) in *.
-  pose proof (i_nodup _ _ _ HI) as Hn. rewrite (i_fifo _ _ _ HI) in Hn. rewrite filter_app, map_app in Hn.
+  intros m d vf ps sched. pose proof (Inv_reach m d vf ps sched) as HI. set (c := run sched (init m d vf ps)) in *.
+  pose proof (i_nodup _ _ _ _ _ HI) as Hn. rewrite (i_fifo _ _ _ _ _ HI) in Hn. rewrite filter_app, map_app in Hn.
   apply NoDup_app_l in Hn. rewrite filter_all in Hn; [exact Hn|].
-  intros x Hx. destruct (wrote_origin _ _ _ _ HI Hx) as [i [k [p [lev [A _]]]]]. unfold is_prod. rewrite A. reflexivity.
+  intros x Hx. destruct (wrote_origin _ _ _ _ _ _ HI Hx) as [i [k [p [lev [A _]]]]]. unfold is_prod. rewrite A. reflexivity.
 Qed.
 
 
 (* the return values: every completed call returned true *)
-Lemma c28_return_exact_lemma : forall m ps sched i p, nth_error ps i = Some p ->
-  exists st done, nth_error (prods (run sched (init m ps))) i = Some st /\
+Lemma c28_return_exact_lemma : forall m d vf ps sched i p, nth_error ps i = Some p ->
+  exists st done, nth_error (prods (run sched (init m d vf ps))) i = Some st /\
                   p = done ++ todo st /\ rets st = map (fun _ => true) done.
 Proof.
-  intros m ps sched i p Hp. pose proof (Inv_reach m ps sched) as HI.
-  destruct (prod_state _ _ _ _ _ HI Hp) as [st [Hst [done [A [_ [B _]]]]]].
+  intros m d vf ps sched i p Hp. pose proof (Inv_reach m d vf ps sched) as HI.
+  destruct (prod_state _ _ _ _ _ _ _ HI Hp) as [st [Hst [done [A [_ [B _]]]]]].
   exists st, done. split; [exact Hst|]. split; [exact A|exact B].
 Qed.
 
@@ -346,13 +416,13 @@ Lemma rets_ok1_true : forall m p, rets_ok1 m p (map (fun _ => true) p) = true.
 Proof. induction p as [|[lev t] p IH]; cbn; [reflexivity|]. rewrite IH. destruct (enabled m lev); reflexivity. Qed.
 
 (* the oracle's return-value clause, once every producer has made all its calls *)
-Lemma c28_return_ok_lemma : forall m ps sched,
-  all_done (run sched (init m ps)) = true ->
-  rets_ok m ps (o_rets (observe (run sched (init m ps)))) = true.
+Lemma c28_return_ok_lemma : forall m d vf ps sched,
+  all_done (run sched (init m d vf ps)) = true ->
+  rets_ok m ps (o_rets (observe (run sched (init m d vf ps)))) = true.
 Proof.
-  intros m ps sched Hd. pose proof (Inv_reach m ps sched) as HI. set (c := run sched (init m ps)) in *.
+  intros m d vf ps sched Hd. pose proof (Inv_reach m d vf ps sched) as HI. set (c := run sched (init m d vf ps)) in *.
   cbn [observe o_rets]. unfold all_done in Hd. rewrite forallb_forall in Hd.
-  pose proof (i_prods _ _ _ HI) as Hp.
+  pose proof (i_prods _ _ _ _ _ HI) as Hp.
   assert (G : forall (ps0 : list prog) (l : list pstate),
             (forall i, orel (fun p st => todo st = [] -> rets st = map (fun _ => true) p) (nth_error ps0 i) (nth_error l i)) ->
             (forall st, In st l -> todo st = []) -> rets_ok m ps0 (map rets l) = true).
@@ -383,24 +453,24 @@ Record Jnv (c : config) : Prop := {
   j_exit : cons c = CExit -> stopper c <> SIdle /\ forall y, In y (queue c) -> In y (after_stop c);
   j_none : forall y, In y (pushed c) -> q_src y = None -> In y (after_stop c) }.
 
-Lemma Jnv_init : forall m ps, Jnv (init m ps).
+Lemma Jnv_init : forall m d vf ps, Jnv (init m d vf ps).
 Proof.
   intros. constructor; cbn; auto; try discriminate; try (intros ? []); try (intros H; contradiction H; reflexivity).
 Qed.
 
 Section AllWritten.
-Variables (m : Z) (ps : list prog).
+Variables (m : Z) (d : bool) (vf : valfn) (ps : list prog).
 Hypothesis NM : no_marker m ps = true.
 
-Lemma pushed_prod_text : forall c x, Inv m ps c -> In x (pushed c) -> is_prod x = true -> q_text x <> [].
+Lemma pushed_prod_text : forall c x, Inv m d vf ps c -> In x (pushed c) -> is_prod x = true -> q_text x <> [].
 Proof.
-  intros c x HI Hx Hp. unfold is_prod in Hp. pose proof (i_src _ _ _ HI x Hx) as Hs.
+  intros c x HI Hx Hp. unfold is_prod in Hp. pose proof (i_src _ _ _ _ _ HI x Hx) as Hs.
   destruct (q_src x) as [[i k0]|] eqn:Esrc; [|discriminate].
   destruct (nth_error ps i) as [p|] eqn:Ep; [|apply nth_error_None in Ep; lia].
-  destruct (prod_state _ _ _ _ _ HI Ep) as [st [_ [done [Hsplit [_ [_ Hfil]]]]]].
+  destruct (prod_state _ _ _ _ _ _ _ HI Ep) as [st [_ [done [Hsplit [_ [_ Hfil]]]]]].
   assert (Fx : In x (filter (from i) (pushed c))).
   { apply filter_In. split; [exact Hx|]. unfold from. rewrite Esrc. apply Nat.eqb_refl. }
-  rewrite Hfil in Fx. destruct (elems_in _ _ _ _ _ Fx) as [j [lev [_ [B C]]]].
+  rewrite Hfil in Fx. destruct (elems_in _ _ _ _ _ _ Fx) as [j [lev [_ [B C]]]].
   assert (Hin : In (lev, q_text x) p).
   { rewrite Hsplit. apply in_or_app. left. eapply nth_error_In. exact B. }
   unfold no_marker in NM. rewrite forallb_forall in NM. specialize (NM p (nth_error_In _ _ Ep)).
@@ -410,7 +480,7 @@ Qed.
 
 Ltac jf := cbn [set_cons stopper stopping after_stop pushed at_stop cons queue].
 
-Lemma Jnv_step : forall c t, Inv m ps c -> Jnv c -> Jnv (step c t).
+Lemma Jnv_step : forall c t, Inv m d vf ps c -> Jnv c -> Jnv (step c t).
 Proof.
   intros c t HI HJ. pose proof HJ as [Jidle Jreq Jat Jpop Jexit Jnone]. destruct t as [i| |]; cbn [step].
   - (* producer *)
@@ -443,7 +513,7 @@ Proof.
       * destruct (q_text x) as [|b bs] eqn:Ex.
         -- (* the element that ends the loop: by NM it is the marker of stop() *)
            assert (Hxp : In x (pushed c)).
-           { rewrite (i_fifo _ _ _ HI), Eq. apply in_or_app. right. apply in_or_app. right. apply in_or_app. right. left. reflexivity. }
+           { rewrite (i_fifo _ _ _ _ _ HI), Eq. apply in_or_app. right. apply in_or_app. right. apply in_or_app. right. left. reflexivity. }
            assert (Hxn : q_src x = None).
            { destruct (q_src x) eqn:Es; [|reflexivity]. exfalso.
              apply (pushed_prod_text c x HI Hxp); [unfold is_prod; rewrite Es; reflexivity|exact Ex]. }
@@ -453,10 +523,10 @@ Proof.
            destruct (Jreq Hns) as [_ Hsplit].
            assert (Hd : dropped c = []).
            { destruct (dropped c) eqn:Ed; [reflexivity|].
-             assert (cons c = CExit) by (apply (i_exit _ _ _ HI); rewrite Ed; discriminate). congruence. }
+             assert (cons c = CExit) by (apply (i_exit _ _ _ _ _ HI); rewrite Ed; discriminate). congruence. }
            constructor; jf; try assumption; try discriminate.
            intros _. split; [exact Hns|]. intros y Hy.
-           pose proof (i_fifo _ _ _ HI) as Hf. rewrite Ec, Hd, Eq in Hf. cbn [inflight app] in Hf.
+           pose proof (i_fifo _ _ _ _ _ HI) as Hf. rewrite Ec, Hd, Eq in Hf. cbn [inflight app] in Hf.
            rewrite Hsplit in Hf. apply app_eq_app in Hf. destruct Hf as [l [[A B]|[A B]]].
            ++ destruct l as [|z l].
               ** cbn in B. rewrite <- B. right. exact Hy.
@@ -503,10 +573,10 @@ Proof.
     + exact HJ.
 Qed.
 
-Lemma Jnv_reach : forall sched, Jnv (run sched (init m ps)).
+Lemma Jnv_reach : forall sched, Jnv (run sched (init m d vf ps)).
 Proof.
   intros sched.
-  assert (G : forall sched c, Inv m ps c -> Jnv c -> Jnv (run sched c)).
+  assert (G : forall sched c, Inv m d vf ps c -> Jnv c -> Jnv (run sched c)).
   { induction sched0 as [|t sched0 IH]; intros c HI HJ; cbn; [exact HJ|].
     apply IH; [apply Inv_step; exact HI|apply Jnv_step; assumption]. }
   apply G; [apply Inv_init|apply Jnv_init].
@@ -527,24 +597,24 @@ Qed.
 (* When stop() has returned, every element that was in the queue history at the moment stop()
    executed _stopping.request_stop() has been written. *)
 Lemma c28_all_written_lemma : forall sched,
-  let c := run sched (init m ps) in
+  let c := run sched (init m d vf ps) in
   stopper c = SDone ->
   (forall x, In x (at_stop c) -> In x (wrote c)) /\ NoDup (map q_src (wrote c)).
 Proof.
   intros sched c Hdone. split; [|apply c28_once_lemma]. intros x Hx.
-  pose proof (Inv_reach m ps sched) as HI. pose proof (Jnv_reach sched) as HJ. fold c in HI, HJ.
-  pose proof (i_done _ _ _ HI Hdone) as Hc.
+  pose proof (Inv_reach m d vf ps sched) as HI. pose proof (Jnv_reach sched) as HJ. fold c in HI, HJ.
+  pose proof (i_done _ _ _ _ _ HI Hdone) as Hc.
   assert (Hns : stopper c <> SIdle) by (rewrite Hdone; discriminate).
   destruct (j_req _ HJ Hns) as [_ Hsplit].
   assert (Hxp : In x (pushed c)) by (rewrite Hsplit; apply in_or_app; left; exact Hx).
   pose proof (j_at _ HJ x Hx) as Hprod.
-  pose proof (i_fifo _ _ _ HI) as Hf. rewrite Hc in Hf. cbn [inflight app] in Hf.
+  pose proof (i_fifo _ _ _ _ _ HI) as Hf. rewrite Hc in Hf. cbn [inflight app] in Hf.
   rewrite Hf in Hxp. apply in_app_or in Hxp. destruct Hxp as [Hw|Hxp]; [exact Hw|].
   apply in_app_or in Hxp. destruct Hxp as [Hd|Hq].
   - exfalso. apply (pushed_prod_text c x HI); [rewrite Hsplit; apply in_or_app; left; exact Hx|exact Hprod|].
-    apply (proj2 (i_text _ _ _ HI)). exact Hd.
+    apply (proj2 (i_text _ _ _ _ _ HI)). exact Hd.
   - destruct (j_exit _ HJ Hc) as [_ B]. pose proof (B x Hq) as H.
-    exfalso. eapply NoDup_src_split; [|exact Hprod|exact Hx|exact H]. rewrite <- Hsplit. exact (i_nodup _ _ _ HI).
+    exfalso. eapply NoDup_src_split; [|exact Hprod|exact Hx|exact H]. rewrite <- Hsplit. exact (i_nodup _ _ _ _ _ HI).
 Qed.
 End AllWritten.
 
@@ -577,11 +647,11 @@ Proof.
   - cbn [step]. unfold step_stop. rewrite H. cbn. discriminate.
 Qed.
 
-Lemma elems_NoDup : forall m i p k, NoDup (elems m i k p).
+Lemma elems_NoDup : forall m vf i p k, NoDup (elems m vf i k p).
 Proof.
   induction p as [|[lev t] p IH]; intros k; cbn [elems]; [constructor|].
   destruct (enabled m lev); [|apply IH]. constructor; [|apply IH].
-  intro H. destruct (elems_in _ _ _ _ _ H) as [j [l [A _]]]. cbn in A. injection A as A. lia.
+  intro H. destruct (elems_in _ _ _ _ _ _ H) as [j [l [A _]]]. cbn in A. injection A as A. lia.
 Qed.
 
 Lemma prefix_full : forall A (a b : list A), prefix a b -> NoDup b -> (forall x, In x b -> In x a) -> a = b.
@@ -594,23 +664,23 @@ Qed.
 
 (* stop() called after every producer has made all its calls: when it has returned, every line
    submitted at an enabled level is written, in order *)
-Lemma c28_all_written_done_lemma : forall m ps s1 s2,
+Lemma c28_all_written_done_lemma : forall m d vf ps s1 s2,
   no_marker m ps = true ->
-  let c1 := run s1 (init m ps) in
+  let c1 := run s1 (init m d vf ps) in
   stopper c1 = SIdle -> all_done c1 = true ->
   let c2 := run s2 (step c1 Stop) in
   stopper c2 = SDone ->
-  forall i p, nth_error ps i = Some p -> filter (from i) (wrote c2) = elems m i 0 p.
+  forall i p, nth_error ps i = Some p -> filter (from i) (wrote c2) = elems m vf i 0 p.
 Proof.
-  intros m ps s1 s2 NM c1 Hidle Hdone c2 Hs i p Hp.
-  assert (E : c2 = run (s1 ++ Stop :: s2) (init m ps)).
+  intros m d vf ps s1 s2 NM c1 Hidle Hdone c2 Hs i p Hp.
+  assert (E : c2 = run (s1 ++ Stop :: s2) (init m d vf ps)).
   { unfold c2, c1, run. rewrite fold_left_app. reflexivity. }
-  pose proof (c28_order_lemma m ps (s1 ++ Stop :: s2) i p Hp) as [Hpre _]. rewrite <- E in Hpre.
+  pose proof (c28_order_lemma m d vf ps (s1 ++ Stop :: s2) i p Hp) as [Hpre _]. rewrite <- E in Hpre.
   apply prefix_full; [exact Hpre|apply elems_NoDup|].
   intros x Hx.
   (* x was pushed before the stop request *)
-  pose proof (Inv_reach m ps s1) as HI1. fold c1 in HI1.
-  destruct (prod_state _ _ _ _ _ HI1 Hp) as [st [Hst [done [Hsplit [_ [_ Hfil]]]]]].
+  pose proof (Inv_reach m d vf ps s1) as HI1. fold c1 in HI1.
+  destruct (prod_state _ _ _ _ _ _ _ HI1 Hp) as [st [Hst [done [Hsplit [_ [_ Hfil]]]]]].
   assert (Ht : todo st = []).
   { unfold all_done in Hdone. rewrite forallb_forall in Hdone. specialize (Hdone st (nth_error_In _ _ Hst)).
     destruct (todo st); [reflexivity|discriminate]. }
@@ -618,7 +688,7 @@ Proof.
   assert (Hxa : In x (at_stop c2)).
   { unfold c2. rewrite c28_at_stop_lemma by exact Hidle. rewrite <- Hfil in Hx. apply filter_In in Hx. tauto. }
   rewrite E in Hs, Hxa |- *.
-  destruct (c28_all_written_lemma m ps NM (s1 ++ Stop :: s2) Hs) as [H _].
+  destruct (c28_all_written_lemma m d vf ps NM (s1 ++ Stop :: s2) Hs) as [H _].
   apply filter_In. split; [exact (H x Hxa)|]. eapply elems_from. exact Hx.
 Qed.
 
@@ -629,8 +699,8 @@ Local Open Scope Z_scope.
    stop marker): the lines behind it are never written, however long stop() is delayed *)
 Lemma c28_empty_line_refuted_lemma :
   exists m ps,
-    let o := run_case m [] ps in
-    o_stopped o = true /\ o_file o = [(1%nat, [65])] /\ file_complete m ps o = false.
+    let o := run_case m false (fun _ _ => 0) [] ps in
+    o_stopped o = true /\ o_file o = [(1%nat, [65])] /\ file_complete false m (fun _ _ => 0) ps o = false.
 Proof.
   exists 2, [[(1, [65]); (1, []); (1, [66])]]. vm_compute. repeat split; reflexivity.
 Qed.
@@ -642,11 +712,28 @@ Definition nv_ps : list prog := [[(1, [65]); (0, [66]); (1, [67])]; [(1, [68]); 
    not run at all: everything is written before stop() returns *)
 Lemma c28_nonvacuous_lemma :
   no_marker 18 nv_ps = true /\
-  let c1 := run [P 1; P 0; P 1; P 0; P 0] (init 18 nv_ps) in
+  let c1 := run [P 1; P 0; P 1; P 0; P 0] (init 18 false (fun _ _ => 0) nv_ps) in
   stopper c1 = SIdle /\ all_done c1 = true /\ length (queue c1) = 4%nat /\
   let c2 := run (Stop :: repeat Cons 15 ++ [Stop; Stop]) (step c1 Stop) in
   stopper c2 = SDone /\
   file c2 = [(1%nat, [68]); (2%nat, [65]); (3%nat, [69]); (4%nat, [67])] /\
   map rets (prods c2) = [[true; true; true]; [true; true]] /\
-  c28_ok 18 nv_ps (observe c2) = true.
+  c28_ok false 18 (fun _ _ => 0) nv_ps (observe c2) = true.
+Proof. vm_compute. repeat split; reflexivity. Qed.
+
+(* the same programs with mixed val arguments, once with and once without the direction flag *)
+Definition nv_vf (i k : nat) : Z := Z.of_nat ((i + 2 * k) mod 3).
+
+Lemma c28_nonvacuous_direction_lemma :
+  (let o := run_case 18 true nv_vf [1; 0; 1; 0]%nat nv_ps in
+   o_file o = [(1%nat, [32; 105; 110; 32; 68]); (1%nat, [111; 117; 116; 32; 65]);
+               (2%nat, [111; 117; 116; 32; 69]); (2%nat, [32; 105; 110; 32; 67])] /\
+   c28_ok true 18 nv_vf nv_ps o = true) /\
+  (let o := run_case 18 false nv_vf [1; 0; 1; 0]%nat nv_ps in
+   o_file o = [(1%nat, [68]); (2%nat, [65]); (3%nat, [69]); (4%nat, [67])] /\
+   c28_ok false 18 nv_vf nv_ps o = true) /\
+  (* and the oracle rejects the two-series numbering when the flag is not set *)
+  c28_ok false 18 nv_vf nv_ps
+    {| o_rets := [[true; true; true]; [true; true]];
+       o_file := [(1%nat, [68]); (1%nat, [65]); (2%nat, [69]); (2%nat, [67])]; o_stopped := true |} = false.
 Proof. vm_compute. repeat split; reflexivity. Qed.
